@@ -81,6 +81,15 @@ static void probe(long r, int which)
                         h->write(t * 100 + i);
                         delay(g, 2);
                         if (g.chance(20)) h.cancel();
+                        else if (g.chance(20)) {
+                            // the handle is a unique_ptr: handing it another object commits the first copy now and the
+                            // second one when the handle dies - after the writer lock has gone. Nothing the library
+                            // touches on that path may race with the other writer or with the readers.
+                            auto* second = new Plain();
+                            second->write(t * 100 + 50 + i);
+                            h.reset(second);
+                            delay(g, 2);
+                        }
                     }
                 });
             for (int t = 0; t < 2; t++)
